@@ -405,7 +405,9 @@ fn matrix_c06(args: &Args, agg: &mut Agg, prop: &str) -> (u64, u64) {
                             }
                         }
                         let replay = J::obj().set("mode", "scen").set("table", "c06").set("name", name.as_str()).set("path_index", pi);
-                        let nt = r.stats.c.keys().any(|k| k.starts_with("cov_") && !k.contains("_Sleeping_"));
+                        // (hook-less builds have no colour cells: fall back to the phase of the store)
+                        let nt = r.stats.c.keys().any(|k| k.starts_with("cov_") && !k.contains("_Sleeping_"))
+                            || r.stats.c.keys().any(|k| (k.starts_with("store_") || k.starts_with("wstore_") || k.starts_with("stash_") || k.starts_with("multiadopt_") || k.starts_with("fwdmulti_")) && !k.ends_with("_Sleeping"));
                         if r.stats.get("op_skipped") > 0 {
                             skipped += 1;
                         }
